@@ -1514,7 +1514,7 @@ class TreeRun:
         rich = bool(wd.descendants(uid)) or any(uid in pg["props"] for pg in (wd.nodes[node["parent"]].get("pgs") or {}).values())
         n_groups = sum(uid in pg["props"] for pg in (wd.nodes[node["parent"]].get("pgs") or {}).values())
         self.parents.add(node["parent"])
-        if (op.get("protect") and self.props and self.props <= {"C01", "C02"} and wd.descendants(uid)
+        if (op.get("protect") and self.props and self.props <= {"C01", "C02", "C06"} and wd.descendants(uid)
                 and not protected(node)):
             # constructive: one descendant is protected first, then the ancestor is removed through the workspace
             desc = wd.descendants(uid)
@@ -1528,8 +1528,9 @@ class TreeRun:
         if op["via"] == "ws" and not protected(node) and any(
                 protected(wd.nodes[d]) for d in wd.descendants(uid)):
             # removing an entity with a protected descendant: which part of the subtree goes before the refusal is not
-            # fixed by any statement; what remains must still be one tree (C01: live == re-opened, C02: a valid file)
-            if not self.props or not self.props <= {"C01", "C02"}:
+            # fixed by any statement; what remains must still be one tree (C01: live == re-opened, C02: a valid file, C06:
+            # every entity still in the tree owns its identifier)
+            if not self.props or not self.props <= {"C01", "C02", "C06"}:
                 self.res.count("skipped_protected_descendant")
                 del ent
                 return False
